@@ -349,9 +349,9 @@ def mk_get(tid, rows, columns, kws, family, op='get', tn='ATOM', nmodel=0):
 def cases(ctx):
     rng = ctx.rng
     out = []
-    ntab = ctx.scale(10, 60)
-    nrand = ctx.scale(110, 600)
-    sizes = [0, 1, 2, 3, 5, 8, 13, 21, 30, 40]
+    ntab = ctx.scale(20, 80)
+    nrand = ctx.scale(150, 600)
+    sizes = [0, 1, 2, 3, 5, 8, 13, 21, 30, 40, 6, 10, 16, 24, 27, 33, 36, 38, 12, 19]
     for t in range(ntab):
         n = sizes[t % len(sizes)] if t < 2 * len(sizes) else rng.randrange(0, 41)
         rows = rand_table(rng, n)
